@@ -239,6 +239,9 @@ def default_for(engine, ty):
         return IV(0, t)
     if t == 'bool':
         return BV(False)
+    if t.split('::')[-1] in ('Dimensions',):
+        # the typed key-value store behind the custom_dimension! accessors (hash map trusted)
+        return StateV()
     if t.startswith('Option<'):
         return mk_option(False, ty=t)
     if t.startswith(('Vec<', 'TinyVec<', 'std::vec::Vec<', 'alloc::vec::Vec<', 'tinyvec::TinyVec<')):
@@ -1224,6 +1227,15 @@ def seq_method(engine, st, method, args, dest_ty):
             raise _PathEnds()
         s.items.insert(i, args[2])
         return UnitV()
+    if method == 'remove' and isinstance(s, VecV):
+        i = args[1].concrete()
+        if i is None:
+            i = engine.choose(st, [(args[1].t == j, j) for j in range(len(s.items))] + [(args[1].t >= len(s.items), len(s.items))])
+        if i >= len(s.items):
+            st.panic_if(z3.BoolVal(True), 'Vec::remove index out of bounds')
+            st.ended = 'panic'
+            raise _PathEnds()
+        return s.items.pop(i)
     if method == 'retain' and isinstance(s, VecV):
         clo = args[1]
         holder = RefV(Cell(clo), 0, True) if not isinstance(clo, RefV) else clo
